@@ -689,10 +689,11 @@ def _work(task):
         plain_len = task['plain_len']
     elif task['family'] == 'sub':
         # the groups item, iter, len, bool (+ core); everything in thorough
-        qs = shape_queries((('GI', 'cls'), ('LE', 'cls')), tier, SUB_ROOTS,
+        qs = shape_queries((('GI', 'cls'), ('LE', 'cls')), tier,
+                           [r for r in SUB_ROOTS if r[0] in task['roots']],
                            full=tier == 'thorough', battery='L2', side_battery='L1')
         interesting = {'leafattr', 'append', 'keys', '__getitem__', '__iter__', '__len__'}
-        plain_roots = ['box']
+        plain_roots = ['box'] if 'lsub' in task['roots'] else []
         plain_len = 1
     else:
         qs = []
@@ -757,7 +758,8 @@ def _levels(tier):
             for v in fe for r in ['d2', 'l2', 't2', 'inst', 'dynst', 'sn']
             if tier == 'thorough' or v == 'exec' or r in ('inst', 'dynst', 'sn')]
     levels.append(('builtin-subclasses x {file,exec}',
-                   [{'family': 'sub', 'variant': v, 'tier': tier} for v in fe]))
+                   [{'family': 'sub', 'variant': v, 'tier': tier, 'roots': [r[0]]}
+                    for v in fe for r in SUB_ROOTS]))
     side = ['obj', 'C', 'box0', 'box1']
     if tier == 'quick':
         levels.append(('singles x {file,exec}: relevant expressions, battery on heads',
